@@ -717,6 +717,16 @@ func init() {
 	reg("(*time.Ticker).Reset", func(in *Interp, fr *frame, args []Value) Value { return nil })
 	reg("(*time.Timer).Stop", func(in *Interp, fr *frame, args []Value) Value { return True })
 	reg("(*time.Timer).Reset", func(in *Interp, fr *frame, args []Value) Value { return True })
+	// crypto/rand: deterministic per-path byte sequence (only used to make fresh names)
+	reg("crypto/rand.Read", func(in *Interp, fr *frame, args []Value) Value {
+		b := args[0].(Slice)
+		for i := 0; i < b.len; i++ {
+			in.randSeq++
+			*b.at(i) = BV(8, uint64(in.randSeq*37+11)&0xff)
+		}
+		in.ex.stats.Stubs["crypto/rand.Read: deterministic bytes (fresh names only)"] = true
+		return Tuple{BV(64, uint64(b.len)), Iface{}}
+	})
 	reg("math/rand.Float64", func(in *Interp, fr *frame, args []Value) Value { return float64(0.5) })
 	reg("math/rand.Intn", func(in *Interp, fr *frame, args []Value) Value {
 		n := args[0].(*Term)
@@ -1327,6 +1337,22 @@ func (in *Interp) fmtScalar(verb byte, flags string, v Value, t types.Type) Valu
 	case float64:
 		return fmt.Sprintf("%"+flags+string(verb), x)
 	case Slice:
+		if verb == 'x' && x.opq == nil {
+			// hex of a byte slice with concrete content
+			ok := true
+			var sb strings.Builder
+			for _, e := range x.elems() {
+				t, isT := e.(*Term)
+				if !isT || t.op != OpConst || t.w != 8 {
+					ok = false
+					break
+				}
+				fmt.Fprintf(&sb, "%02x", t.c)
+			}
+			if ok {
+				return sb.String()
+			}
+		}
 		if (verb == 's' || verb == 'v') && x.len >= 0 {
 			if t != nil {
 				if sl, ok := t.Underlying().(*types.Slice); ok {
